@@ -92,9 +92,23 @@ def main():
             rd = os.path.join(vlib.BUILD, "run", "%s-%s" % (pid, hp) if hp != pid else pid)
             os.makedirs(rd, exist_ok=True)
             hb = os.path.join(vlib.BIN, "harness_race" if cfg.get("race") else "harness")
-            rc, o = vlib.sh([hb, hp, "-tier", tier, "-seed", str(seed), "-out", rd], timeout=cfg.get("timeout", 3000), env=vlib.GOENV)
-            if rc != 0:
+            try:
+                os.remove(os.path.join(rd, "summary.json"))
+            except OSError:
+                pass
+            rc, o = vlib.sh([hb, hp, "-tier", tier, "-seed", str(seed), "-out", rd], timeout=cfg.get("timeout", 3000), env=dict(vlib.GOENV, GORACE="halt_on_error=0 exitcode=66"))
+            if "WARNING: DATA RACE" in o:
+                # the race detector's report is the failing history: the accesses, their stacks and the case being run
+                i = o.index("WARNING: DATA RACE")
+                case = [l for l in o[:i].split("\n") if l.startswith("CASE ")]
+                direct.append({"kind": "data-race", "key": "race", "harness": hp,
+                               "case": {"case": case[-1] if case else "?", "race_report": o[i:i + 3000]},
+                               "detail": "the Go race detector reported a data race while goroutines shared one evaluator/filter"})
+            elif rc != 0:
                 problems.append({"kind": "harness-run", "what": hp, "detail": o[-800:]})
+                continue
+            if not os.path.exists(os.path.join(rd, "summary.json")):
+                problems.append({"kind": "harness-run", "what": hp, "detail": "no summary written: " + o[-400:]})
                 continue
             s = json.load(open(os.path.join(rd, "summary.json")))
             total_eval += s["evaluations"]; total_distinct += s["distinct_nontrivial"]
